@@ -20,7 +20,7 @@ LEVEL_NOTE = 'bounded, never counted as proved; scikit-learn KMeans / scipy gaus
 EXPLANATION = LEVEL_TEXT
 TECHNIQUE = 'bounded stand-in: pre/postcondition contract of GET_EYE (and its affine-equivariance relation) checked at run time on the real function over a stated grid; no deductive obligation (KMeans/KDE outside verifier reach)'
 BOUNDED_RULE = ('random and PRBS7 patterns of 64..256 slots, sps in {8,16,32}, sps_resamp=128, swing b-a = 10^u, u in [-3, 2] (always including 1e-3, 1 and 100), offsets a in [-2,2]*(b-a), sigma in [0.5%,5%], '
-                'alpha = 10^v, v in [-3,3], beta in [-3,3]*alpha*(b-a); numpy seed fixed per case; distinct = distinct (pattern, sps, swing, sigma, alpha)')
+                'alpha = 10^v, v in [-3,3], beta in [-3,3]*alpha*(b-a); one case in seven with nslots=64 < number of slots; numpy seed fixed per case; distinct = distinct (pattern, sps, swing, sigma, alpha)')
 
 
 def _one_case(args):
@@ -30,6 +30,7 @@ def _one_case(args):
     from opticomlib.typing import gv, electrical_signal
     from opticomlib.devices import DAC, GET_EYE, LPF, PRBS
     k, seed, sps, nb, src, d, a_rel, sg, al, be_rel = args
+    nslots_arg = 64 if k % 7 == 3 else None            # some calls analyse fewer slots than the record holds (nslots < number of slots)
     rng = np.random.default_rng(seed * 1000 + k)
     gv(sps=sps, R=1e9)
     bits = rng.integers(0, 2, nb) if src == 'random' else np.asarray(PRBS(order=7).data)[:127].astype(int)
@@ -39,13 +40,14 @@ def _one_case(args):
     b = a + d
     s = a + d * w + rng.normal(0, sg * d, w.size)
     be = be_rel * al * d
-    case = {'pattern': src, 'slots': int(len(bits)), 'sps': sps, 'a': a, 'b': b, 'sigma_rel': sg, 'alpha': al, 'beta': be, 'numpy_seed': 7}
+    case = {'pattern': src, 'slots': int(len(bits)), 'nslots': nslots_arg, 'sps': sps, 'a': a, 'b': b, 'sigma_rel': sg, 'alpha': al, 'beta': be, 'numpy_seed': 7}
     # precondition of the contract (by construction): two levels a < b, both symbols present, sigma <= 5% of b-a
     try:
         np.random.seed(7)
-        e = GET_EYE(electrical_signal(s), sps_resamp=128)
+        kw = {} if nslots_arg is None else {'nslots': nslots_arg}
+        e = GET_EYE(electrical_signal(s), sps_resamp=128, **kw)
         np.random.seed(7)
-        e2 = GET_EYE(electrical_signal(al * s + be), sps_resamp=128)
+        e2 = GET_EYE(electrical_signal(al * s + be), sps_resamp=128, **kw)
     except Exception as ex_:
         return dict(case, problem=f'{type(ex_).__name__}: {ex_}')
     prob = []
